@@ -382,8 +382,14 @@ class Param():
 
     @staticmethod
     def _is_reply_for(pk, element):
-        """Check that a reply on the misc channel is for the parameter the request was made for"""
-        return len(pk.data) >= 3 and struct.unpack('<H', pk.data[1:3])[0] == element.ident
+        """Check that a reply on the misc channel is for the parameter the request was made for.
+        With several requests for the same parameter waiting, the reply belongs to the oldest one only"""
+        if len(pk.data) < 3 or struct.unpack('<H', pk.data[1:3])[0] != element.ident:
+            return False
+        if getattr(pk, 'claimed_by_param_request', False):
+            return False
+        pk.claimed_by_param_request = True
+        return True
 
     def get_default_value(self, complete_name, callback):
         """
